@@ -28,6 +28,8 @@ def _witnesses():
         out += [f"{p}:arrives_while_own_flow_held", f"{p}:killed_between_messages", f"{p}:arrives_after_kill"]
     out += ["http2:sibling_progress", "http2:sibling_arrives_while_other_held", "dns:sibling_arrives_while_other_held",
             "http1:aborted", "http2:aborted", "dns:aborted", "http2:arrives_after_kill", "http1:arrives_after_kill"]
+    for p in ("http1", "http2"):
+        out += [f"{p}:streamed_intercepted", f"{p}:streamed_killed_in_hook", f"{p}:streamed_end_after_release"]
     return tuple(out)
 
 
@@ -48,45 +50,49 @@ class Check(core.PropertyCheck):
         "what is written is attributed to messages by tokens in heads and bodies, decoded by independent peers (h2, "
         "wsproto, own HTTP/1 scanner and DNS parser); connection close, RST_STREAM and DNS SERVFAIL count as ending a "
         "flow, not as content",
-        "complete messages arrive in one piece; no streaming, no client disconnect while a flow is held, no connect "
-        "failures (C03/C07/C29 cover those)",
+        "complete messages arrive in one piece; streamed http messages are chunked on HTTP/1 so that their end is "
+        "observable; no client disconnect while a flow is held, no connect failures (C03/C07/C29 cover those)",
     )
 
     def mon_constants(self, tier):
         return {"EditOff": EDIT}
 
     @staticmethod
-    def _cfg(raw_n, raw_user, seq_user, h2_user, flows=2, protos=RAW + PAIRED):
-        """Cfg constant of Intercept.tla: per protocol [n messages, flows, user actions]."""
+    def _cfg(raw_n, raw_user, seq_user, h2_user, flows=2, protos=RAW + PAIRED, h1_str=(1, 2), h2_str=(1, 2)):
+        """Cfg constant of Intercept.tla: per protocol [n messages, flows, user actions, streamable messages]."""
         cfg = {}
         for p in protos:
             if p in RAW:
-                cfg[p] = {"n": raw_n, "flows": 1, "user": raw_user}
+                cfg[p] = {"n": raw_n, "flows": 1, "user": raw_user, "str": frozenset()}
             else:
-                cfg[p] = {"n": 2 * flows, "flows": flows, "user": h2_user if p == "http2" else seq_user}
-        return {"Cfg": cfg, "Decisions": frozenset(DECISIONS), "EditOff": EDIT}
+                cfg[p] = {"n": 2 * flows, "flows": flows, "user": h2_user if p == "http2" else seq_user,
+                          "str": frozenset(h1_str if p == "http1" else h2_str if p == "http2" else ())}
+        return {"Cfg": cfg, "Decisions": frozenset(DECISIONS), "EditOff": EDIT, "StreamReqKillCheck": False}
 
     def model_constants(self, tier):
-        # dumped instance.  quick: raw protocols 2 messages / 3 user actions, dns+http1 two flows / 3 user actions,
-        # http2 (whose streams interleave freely) two flows / 2 user actions; thorough: 3 user actions everywhere
-        return self._cfg(2, 3, 3, 2 if tier == "quick" else 3)
+        # dumped instance (both tiers): raw protocols 2 messages / 3 user actions, dns+http1 two flows / 3 user actions,
+        # http2 (whose streams interleave freely) two flows / 2 user actions; the messages of flow 1 may be streamed
+        return self._cfg(2, 3, 3, 2)
 
     def model_runs(self, ctx):
         runs = [ctx.model_check(self.MODEL, self.model_constants(ctx.tier), dump=True)]
         if not ctx.quick:  # larger instances, exhaustive but not dumped
-            runs.append(ctx.model_check(self.MODEL, self._cfg(3, 3, 4, 4), dump=False, tag="_big"))
+            runs.append(ctx.model_check(self.MODEL, self._cfg(3, 3, 4, 4, h1_str=(1, 2, 3, 4), h2_str=(1, 2, 3, 4)),
+                                        dump=False, tag="_big"))
         return runs
 
     @staticmethod
     def _scenario(beh, source="model"):
         st0 = beh[0][2]
         proto = str(st0["proto"])
-        plan, ops = {}, []
+        plan, ops, streams = {}, [], []
         paired = proto in PAIRED
         for name, args, _st in beh[1:]:
             if name == "Arrive":
                 n, to, d = int(args[0]), str(args[1]), str(args[2])
                 plan[str(n)] = d
+                if bool(args[3]):
+                    streams.append(n)
                 ops.append(["arrive", n, (n + 1) // 2 if paired else 1, to])
             elif name == "Resume":
                 ops.append(["resume", int(args[0])])
@@ -109,19 +115,20 @@ class Check(core.PropertyCheck):
                           and ((int(n) + 1) // 2 if paired else 1) == f)
             flows.append({"f": f, "err": bool(rec["kd"]), "intercepted": bool(rec["ic"]), "waiting": waiting})
         pred = [{"k": "cfg", "proto": proto}] + core.predicted_events(beh) + [{"k": "end", "flows": flows}]
-        return core.Scenario({"proto": proto, "plan": plan, "ops": ops}, predicted=pred, source=source)
+        return core.Scenario({"proto": proto, "plan": plan, "ops": ops, "streams": streams}, predicted=pred, source=source)
 
     def scenarios(self, ctx, models):
         g = models[0].graph
         behs = g.edge_cover(ctx.rng, max_len=24, tail=12)
         ctx.notes["edge_cover_paths"] = len(behs)
-        if ctx.quick and len(behs) > 2800:  # quick: a seeded sample of the edge cover; thorough replays all of it
-            behs = ctx.rng.sample(behs, 2800)
+        if ctx.quick and len(behs) > 3000:  # quick: a seeded sample of the edge cover; thorough replays all of it
+            behs = ctx.rng.sample(behs, 3000)
         behs += g.random_walks(ctx.rng, 300 if ctx.quick else 5000, 20)
         for b in behs:
             yield self._scenario(b)
         if not ctx.quick:
-            for tag, c in (("raw", self._cfg(5, 6, 6, 6, protos=RAW)), ("paired", self._cfg(5, 6, 6, 6, flows=3, protos=PAIRED))):
+            for tag, c in (("raw", self._cfg(5, 6, 6, 6, protos=RAW)),
+                           ("paired", self._cfg(5, 6, 6, 6, flows=3, protos=PAIRED, h1_str=range(1, 7), h2_str=range(1, 7)))):
                 behs, _r = ctx.simulate(self.MODEL, c, num=4000, depth=30, tag="sim_" + tag)
                 for b in behs:
                     yield self._scenario(b, "simulate")
@@ -135,7 +142,7 @@ class Check(core.PropertyCheck):
         from vf import icept
 
         if sc.get("ops") is not None:
-            return icept.run(sc["proto"], sc["plan"], sc["ops"])
+            return icept.run(sc["proto"], sc["plan"], sc["ops"], streams=sc.get("streams", ()))
         return self._random(sc)
 
     @staticmethod
@@ -148,6 +155,7 @@ class Check(core.PropertyCheck):
         proto, nmax = sc["proto"], sc["n"]
         paired = proto in PAIRED
         plan = {str(n): rng.choice(["pass", "pass", "intercept", "intercept", "kill"]) for n in range(1, nmax + 1)}
+        streams = [n for n in range(1, nmax + 1) if proto in ("http1", "http2") and rng.random() < 0.35]
         state = {"steps": 0}
         ops = []
 
@@ -189,6 +197,6 @@ class Check(core.PropertyCheck):
             ops.append(op)
             return op
 
-        tr = icept.run(proto, plan, [], choose=choose)
-        sc["plan_generated"], sc["ops_generated"] = plan, ops
+        tr = icept.run(proto, plan, [], choose=choose, streams=streams)
+        sc["plan_generated"], sc["ops_generated"], sc["streams_generated"] = plan, ops, streams
         return tr
